@@ -1,7 +1,172 @@
-import TF.Model.Merkle
-import TF.Spec.Merkle
-/-! placeholder, theorems follow -/
+import TF.Proofs.MerkleUnique
+/-!
+# C04 — Merkle inclusion-proof verification is sound, exact and total
+
+Property theorems only (helper lemmas live in `TF/Proofs/Merkle*.lean`).  Everything is proved for an **arbitrary hash
+function** `H : D → D → D` (the driver instantiates it with Tip5's `hash_pair`), so "sound" means: a wrong claim yields
+an explicit collision `Collision H` (`∃ a b c d, (a,b) ≠ (c,d) ∧ H a b = H c d`).
+
+Notation.  `Proof D` = `MerkleTreeInclusionProof` (`height`, `leafs : List (index × digest)`, `auth`); `verify H p root :
+Res Bool` is the model of `MerkleTreeInclusionProof::verify` (`Res` = `ok | err | panic`, where `panic` marks every
+arithmetic overflow / out-of-bounds access / `zip_eq` mismatch of the Rust code; all numbers are unbounded naturals, so
+"all of `usize`" is a special case).  `Spec.refVerify` is the reference verifier: trivial proofs are accepted; otherwise
+`Spec.wellFormed p` (height ≤ `MAX_TREE_HEIGHT`, all indices `< 2^height`, repeated indices carry equal digests, and
+`auth` has **exactly** the length of the minimal node set `Spec.needed`) and the naive recursive recomputation
+`Spec.refRoot` (claimed leafs + supplied nodes placed at `Spec.needed`, see `Spec.refVal`) equals the expected root.
+`Spec.IsMerkleTree H filler ds nodes`: `nodes` is the heap-ordered honest tree over the leafs `ds`.
+-/
+set_option linter.unusedSectionVars false
 namespace TF.C04
-open TF.Merkle
-theorem placeholder_total : True := trivial
+open TF.Gen TF.Merkle
+
+variable {D : Type} [DecidableEq D] (H : D → D → D)
+
+/-- a small non-injective "hash" on `Nat` for the non-vacuity examples -/
+def Hx (a b : Nat) : Nat := (3 * a + 5 * b + 1) % 1000003
+
+/-- **totality**: for every proof — any height, any indices, any multiset/order of claims, any length and content of the
+    authentication structure — and every root, `verify` returns a verdict; no panic, i.e. no arithmetic overflow, no
+    out-of-bounds access -/
+theorem verify_total (p : Proof D) (root : D) : ∃ b, verify H p root = .ok b :=
+  ⟨_, verify_eq_refVerify H p root⟩
+example : verify Hx ⟨2^64 - 1, [(2^64 - 1, 7), (0, 7)], [1, 2, 3]⟩ 5 = .ok false := by decide +kernel
+
+/-- **exactness**: the verdict is that of the reference recomputation: accepted iff the proof is trivial, or it is
+    well-formed — in particular supplies exactly the minimal node set — and hashing the claimed leafs together with the
+    supplied nodes, placed at the positions determined by indices and height, reproduces the root -/
+theorem verify_exact (p : Proof D) (root : D) : verify H p root = .ok (Spec.refVerify H p root) :=
+  verify_eq_refVerify H p root
+
+theorem verify_accepts_iff (p : Proof D) (root : D) :
+    verify H p root = .ok true ↔ (p.isTrivial = true ∨ (Spec.wellFormed p = true ∧ Spec.refRoot H p = some root)) := by
+  rw [verify_eq_refVerify]
+  unfold Spec.refVerify
+  constructor
+  · intro h
+    have h' : (p.isTrivial || (Spec.wellFormed p && decide (Spec.refRoot H p = some root))) = true := by
+      injection h
+    simpa using h'
+  · intro h
+    congr 1
+    simpa using h
+example : verify Hx ⟨2, [(0, 1), (2, 3), (0, 1)], [4, 2]⟩ 193 = .ok true := by decide +kernel
+example : verify Hx ⟨2, [(0, 1), (2, 3)], [4, 2, 2]⟩ 193 = .ok false := by decide +kernel      -- surplus node
+example : verify Hx ⟨2, [(0, 1), (2, 3), (0, 2)], [4, 2]⟩ 193 = .ok false := by decide +kernel -- conflicting repetition
+example : verify Hx ⟨32, [], []⟩ 193 = .ok true := by decide +kernel                           -- trivial proof
+
+/-- **soundness** (collision-extracting): if a non-trivial proof is accepted against the root of an honest tree of the
+    stated height, then every claimed `(index, digest)` is the tree's leaf at that index — or an explicit collision of
+    the hash function is exhibited -/
+theorem verify_sound (filler : D) {ds : List D} {t : Tree D} {p : Proof D} {root : D}
+    (hn : ds.length = 2^p.height) (hm : Spec.IsMerkleTree H filler ds t.nodes) (hr : t.root = .ok root)
+    (hv : verify H p root = .ok true) (hnt : p.isTrivial = false) :
+    (∀ x ∈ p.leafs, t.leaf x.1 = some x.2) ∨ Collision H := by
+  rcases (verify_accepts_iff H p root).1 hv with ht | ⟨hw, hroot⟩
+  · rw [hnt] at ht; cases ht
+  obtain ⟨hh, hrange, hcons, hlen⟩ := (wellFormed_iff p).1 hw
+  rw [tree_root H hn hm] at hr
+  injection hr with hr
+  -- a non-trivial well-formed proof claims at least one leaf
+  have hne : p.leafs ≠ [] := by
+    intro hnil
+    rw [hnil] at hlen
+    simp only [List.map_nil, needed_nil, List.length_nil] at hlen
+    have : p.auth = [] := List.eq_nil_of_length_eq_zero hlen
+    simp [Proof.isTrivial, hnil, this] at hnt
+  obtain ⟨x0, hx0⟩ := List.exists_mem_of_ne_nil _ hne
+  have hx0i : x0.1 ∈ p.leafs.map (·.1) := List.mem_map.2 ⟨x0, hx0, rfl⟩
+  have hsz : t.nodes.length ≤ USIZE := by
+    rw [hm.1, hn, ← two_pow_succ]
+    have : 2^(p.height+1) ≤ 2^32 := two_pow_le_of_le (by omega)
+    have : (2:Nat)^32 ≤ 2^64 := by decide
+    unfold USIZE; omega
+  have hrv : Spec.refVal H (Spec.leafAt p.height p.leafs) (Spec.authAt p.height (p.leafs.map (·.1)) p.auth) p.height
+      (anc p.height x0.1 p.height) = some (nodeVal H (leafFn filler ds p.height) p.height (anc p.height x0.1 p.height)) := by
+    rw [anc_top (hrange x0 hx0), hr]; exact hroot
+  rcases refVal_sound H hw (leafFn filler ds p.height) p.height (Nat.le_refl _) x0.1 hx0i hrv with hl | hc
+  · left
+    intro x hx
+    have hxi : x.1 ∈ p.leafs.map (·.1) := List.mem_map.2 ⟨x, hx, rfl⟩
+    have h1 := hl x.1 hxi (by rw [anc_top (hrange x hx), anc_top (hrange x0 hx0)])
+    have h2 : Spec.leafAt p.height p.leafs (x.1 + 2^p.height) = some x.2 :=
+      (consistent_iff (n := 2^p.height)).2 hcons x hx
+    rw [h2] at h1
+    injection h1 with h1
+    have hlt : x.1 < ds.length := by rw [hn]; exact hrange x hx
+    rw [tree_leaf H hm hsz, if_pos hlt, h1]
+    simp [leafFn, List.getElem?_eq_getElem hlt]
+  · exact Or.inr hc
+example : ∃ t root, fromDigests Hx 0 256 [1, 2, 3, 4] = .ok t ∧ t.root = .ok root ∧
+    verify Hx ⟨2, [(0, 1), (2, 3)], [4, 2]⟩ root = .ok true := ⟨_, _, rfl, rfl, by decide +kernel⟩
+
+/-- soundness against a tree built by `from_digests` (any cut-off) -/
+theorem verify_sound_built (filler : D) (cutoff : Nat) {ds : List D} {t : Tree D} {p : Proof D} {root : D}
+    (hn : ds.length = 2^p.height) (ht : fromDigests H filler cutoff ds = .ok t) (hr : t.root = .ok root)
+    (hv : verify H p root = .ok true) (hnt : p.isTrivial = false) :
+    (∀ x ∈ p.leafs, t.leaf x.1 = some x.2) ∨ Collision H := by
+  obtain ⟨t', ht', hm⟩ := fromDigests_ok H filler cutoff hn
+  rw [ht] at ht'; cases ht'
+  exact verify_sound H filler hn hm hr hv hnt
+
+/-- **accessors are total and never present an inner node as a leaf** (after fix F1): on a tree over `n` leafs whose
+    node vector is addressable, `leaf i` is the `i`-th leaf for `i < n` and `None` for *every* `i ≥ n` in the naturals
+    (so in `usize`); `node i` is `nodes[i]` or `None`; `indexed_leafs`, `authentication_structure` and
+    `inclusion_proof_for_leaf_indices` return `Ok` for in-range index lists and `Err` otherwise — never a panic -/
+theorem accessors_total (filler : D) {ds : List D} {h : Nat} {t : Tree D} (hn : ds.length = 2^h) (hh : h ≤ MAX_TREE_HEIGHT)
+    (hm : Spec.IsMerkleTree H filler ds t.nodes) :
+    (∀ i, t.leaf i = if i < ds.length then ds[i]? else none) ∧
+    (∀ i, ds.length ≤ i → t.leaf i = none) ∧
+    (∀ i, t.node i = t.nodes[i]?) ∧
+    (∀ idxs, (∀ i ∈ idxs, i < ds.length) →
+      (∃ l, t.indexedLeafs idxs = .ok l) ∧ (∃ a, t.authStructure idxs = .ok a) ∧ (∃ p, t.inclusionProof idxs = .ok p)) ∧
+    (∀ idxs, (∃ i ∈ idxs, ds.length ≤ i) →
+      t.indexedLeafs idxs = .err .leafIndexInvalid ∧ t.authStructure idxs = .err .leafIndexInvalid ∧
+      t.inclusionProof idxs = .err .leafIndexInvalid) := by
+  have hh' : h ≤ 31 := hh
+  have hsz : t.nodes.length ≤ USIZE := by
+    rw [hm.1, hn, ← two_pow_succ]
+    have : 2^(h+1) ≤ 2^32 := two_pow_le_of_le (by omega)
+    have : (2:Nat)^32 ≤ 2^64 := by decide
+    unfold USIZE; omega
+  refine ⟨tree_leaf H hm hsz, ?_, fun _ => rfl, ?_, ?_⟩
+  · intro i hi
+    rw [tree_leaf H hm hsz, if_neg (by omega)]
+  · intro idxs hi
+    have hi' : ∀ i ∈ idxs, i < 2^h := fun i hx => by rw [← hn]; exact hi i hx
+    exact ⟨⟨_, tree_indexedLeafs H hn hm hsz hi'⟩, ⟨_, tree_authStructure H hn (by omega) hm hi'⟩,
+      ⟨_, tree_inclusionProof H hn (by omega) hm hsz hi'⟩⟩
+  · intro idxs hbad
+    exact ⟨tree_indexedLeafs_err H hm hsz hbad, tree_authStructure_err H hn (by omega) hm hbad,
+      tree_inclusionProof_err H hn hm hsz hbad⟩
+example : (do let t ← fromDigests Hx 0 256 [1, 2, 3, 4]; pure (t.leaf (2^64 - 3), t.leaf (2^64 - 1), t.leaf 4, t.leaf 3))
+    = Res.ok (none, none, none, some 4) := by decide +kernel
+
+/-- **path expansion is total**: `into_authentication_paths` succeeds exactly on well-formed proofs and returns an
+    error otherwise (any height, indices, lengths) — never a panic; on success there is one path per claim, of length
+    `height`, made of the recomputed or supplied sibling on every level -/
+theorem into_paths_total (p : Proof D) :
+    (Spec.wellFormed p = true ∧ ∃ paths, intoAuthPaths H p = .ok paths ∧ paths.length = p.leafs.length ∧
+      ∀ (t : Nat) (x : Nat × D) (path : List D), p.leafs[t]? = some x → paths[t]? = some path →
+        path.length = p.height ∧ ∀ j, j < p.height →
+          path[j]? = Spec.sibVal H (Spec.leafAt p.height p.leafs) (Spec.authAt p.height (p.leafs.map (·.1)) p.auth) j
+            (sib (anc p.height x.1 j)))
+    ∨ (Spec.wellFormed p = false ∧ ∃ e, intoAuthPaths H p = .err e) := by
+  rcases intoAuthPaths_spec H p with ⟨hw, paths, h1, h2, h3⟩ | h
+  · left
+    refine ⟨hw, paths, h1, h2, ?_⟩
+    intro t x path hx hp
+    obtain ⟨hl, hs⟩ := h3 t x path hx hp
+    exact ⟨hl, fun j hj => (hs j hj).1⟩
+  · exact Or.inr h
+example : intoAuthPaths Hx ⟨2, [(0, 1), (2, 3)], [4, 2]⟩ = .ok [[2, 30], [4, 14]] := by decide +kernel
+example : intoAuthPaths Hx (⟨64, [], []⟩ : Proof Nat) = .err .treeTooHigh := by decide +kernel
+
+/-- every expanded path authenticates its claim: hashing the claimed digest up along the returned path gives the root
+    recomputed by the reference verifier (hence the expected root whenever `verify` accepts) -/
+theorem into_paths_authenticate {p : Proof D} {paths : List (List D)} (hp : intoAuthPaths H p = .ok paths) :
+    ∀ (t : Nat) (x : Nat × D) (path : List D), p.leafs[t]? = some x → paths[t]? = some path →
+      Spec.refRoot H p = some (foldPath H (x.1 + 2^p.height) x.2 path) :=
+  paths_fold H hp
+example : foldPath Hx (2 + 2^2) 3 [4, 14] = 193 := by decide +kernel
+
 end TF.C04
